@@ -1,19 +1,26 @@
 #!/bin/bash
-# Applies every seeded change to /repo in turn, runs the quick check of its property (plus extra checks given in
-# meta "also"), reverts, and writes /verif/seeded/matrix.tsv.
-out=/verif/seeded/matrix.tsv
-: > $out
-for d in /verif/seeded/C*-*; do
+# Runs the quick check of every seeded change's property (plus the checks named in its "also" file) against a scratch
+# worktree of /repo with the change applied, using a snapshot of /verif, and writes /verif/seeded/matrix.tsv.
+# /repo and /verif/evidence are not touched; scratch directories are removed at the end.
+export GOFLAGS=-mod=mod GOPROXY=off GOSUMDB=off GOTOOLCHAIN=local
+WT=/tmp/seedwt.$$; SV=/tmp/seedv.$$
+git -C /repo worktree add -q --detach $WT HEAD || exit 3
+mkdir -p $SV && rsync -a --exclude .git --exclude replays --exclude evidence /verif/ $SV/ && mkdir -p $SV/evidence $SV/replays
+out=$SV/matrix.tsv; : > $out
+for d in ${SEEDS:-/verif/seeded/C*-*}; do
   id=$(basename $d); prop=${id%-*}
   props="$prop"
   [ -f $d/also ] && props="$props $(cat $d/also)"
+  git -C $WT apply $d/patch.diff || { echo -e "$id\t$prop\tpatch-does-not-apply" >> $out; continue; }
   for p in $props; do
-    [ -f /verif/harness/$p/spec.json ] || { echo -e "$id\t$p\tno-check" >> $out; continue; }
-    res=$(/verif/tools/try_seed.sh $d/patch.diff $p 2>&1)
-    rc=$(echo "$res" | grep -o 'exit=[0-9]*' | tail -1)
+    res=$($SV/bin/gosymex check -prop $p -verif $SV -repo $WT 2>&1); rc=$?
     nv=$(echo "$res" | grep -c '^VIOLATION')
-    lab=$(echo "$res" | grep '^VIOLATION' | head -1 | sed 's/.*replay=.*\///; s/\.json//; s/-viol-[0-9]*//')
-    echo -e "$id\t$p\t$rc\tviolations=$nv\t$lab" >> $out
+    nb=$(echo "$res" | grep -c 'BROKEN\|SPURIOUS')
+    lab=$(echo "$res" | grep '^VIOLATION' | sed 's/.*replay=.*\///; s/\.json//; s/-viol-[0-9]*//' | sort -u | head -4 | tr '\n' ' ')
+    echo -e "$id\t$p\texit=$rc\tviolations=$nv\tbroken=$nb\t$lab" >> $out
   done
+  git -C $WT checkout -q -- . ; git -C $WT clean -qfd
 done
-echo done >> $out
+echo "done $(git -C /repo rev-parse --short HEAD) $(date -u +%FT%TZ)" >> $out
+cp $out ${OUT:-/verif/seeded/matrix.tsv}
+git -C /repo worktree remove --force $WT; rm -rf $SV
